@@ -10,6 +10,9 @@ import (
 	"net/http"
 	"net/http/httptest"
 	"strings"
+	"sync"
+	"sync/atomic"
+	"time"
 
 	"github.com/superfly/macaroon"
 	"github.com/superfly/macaroon/tp"
@@ -297,11 +300,78 @@ func (w *c16World) do(a c16Act, r *rng.R) []int64 {
 	panic("c16 do")
 }
 
+// barrierStore forces the interleaving "both polls have looked the flow up before either deletes it" without
+// changing any answer of the wrapped store.
+type barrierStore struct {
+	tp.Store
+	mu      sync.Mutex
+	arrived int
+	gate    chan struct{}
+	delMu   sync.Mutex
+}
+
+func (b *barrierStore) GetByPollSecret(ctx context.Context, s string) (*tp.StoreData, error) {
+	sd, err := b.Store.GetByPollSecret(ctx, s)
+	b.mu.Lock()
+	b.arrived++
+	if b.arrived == 2 {
+		close(b.gate)
+	}
+	b.mu.Unlock()
+	select {
+	case <-b.gate:
+	case <-time.After(2 * time.Second):
+	}
+	return sd, err
+}
+
+func (b *barrierStore) DeleteByPollSecret(ctx context.Context, s string) error {
+	b.delMu.Lock()
+	defer b.delMu.Unlock()
+	return b.Store.DeleteByPollSecret(ctx, s)
+}
+
+// concurrentPollOracle: two polls racing on one approved flow deliver the discharge at most once
+func concurrentPollOracle(r *rng.R) string {
+	w := newC16World(r)
+	w.do(c16Act{Kind: "AInit", T: "TValid", TI: 0, Mode: "MPoll"}, r)
+	w.do(c16Act{Kind: "AApprovePoll", S: "SPoll", F: 0, Cavs: []uint64{1}}, r)
+	bs := &barrierStore{Store: w.tp.Store, gate: make(chan struct{})}
+	w.tp.Store = bs
+	var wg sync.WaitGroup
+	delivered := int32(0)
+	codes := make([]int, 2)
+	for i := 0; i < 2; i++ {
+		wg.Add(1)
+		go func(i int) {
+			defer wg.Done()
+			req := httptest.NewRequest(http.MethodGet, c16TPLoc+tp.PollPathPrefix+w.pollSec[0], nil)
+			rec := httptest.NewRecorder()
+			w.tp.HandlePollRequest(rec, req)
+			codes[i] = rec.Code
+			if strings.Contains(rec.Body.String(), "\"discharge\"") {
+				atomic.AddInt32(&delivered, 1)
+			}
+		}(i)
+	}
+	wg.Wait()
+	if delivered > 1 {
+		return fmt.Sprintf("two polls racing on one approved flow both received the discharge (statuses %v)", codes)
+	}
+	return ""
+}
+
 func genC16(c *ctx) {
 	st := c.set.Stream("tp-hist", "Corr.RunT", "run_cases", 200)
 	n := 400
 	if c.thorough {
 		n = 10000
+	}
+	for i := 0; i < 3; i++ {
+		if f := concurrentPollOracle(c.r.Fork()); f != "" {
+			st.Add(&cs.Case{Coq: "(KTP [] [])", Class: "concurrent-polls", Nontrivial: true, Desc: map[string]any{"what": "two polls race on one approved flow (lookups before deletes)"}, OracleFail: f})
+			break
+		}
 	}
 	cavPool := []uint64{1, 2, 6, 7, 13, 14}
 	for i := 0; i < n; i++ {
